@@ -1,6 +1,7 @@
 """C11 — the formatter preserves meaning, is idempotent, never fails on valid input."""
 
 import json
+import os
 import random
 import re
 import traceback
@@ -193,10 +194,69 @@ def shard(idx, seed, n, widths):
                 stats.fail(sig, {"text": text, "width": w}, detail)
 
     vlib.hyp_run(st.integers(0, 2**63), body, n, seed=seed * 1033 + idx)
+    rnd = random.Random(seed * 77 + idx)
+    for _ in range(max(1, n // 40)):
+        cli_batch(stats, rnd, [build_text(rnd)[1] for _ in range(rnd.choice([2, 3, 4]))], rnd.choice([1, 2, 3, 4, 8]))
     return stats
 
 
+def cli_batch(stats, rnd, texts, width):
+    """The emboss-format program itself (compiler/front_end/format.py main) on several files in one
+    invocation, in place: afterwards every file must hold the formatting of ITS OWN original text, and
+    a second invocation must change nothing; --no-edit-in-place prints the same text for one file."""
+    import contextlib, io, shutil, tempfile
+    from compiler.front_end import format as format_main
+
+    d = tempfile.mkdtemp(prefix="verif_c11cli_")
+    try:
+        names = []
+        expected = {}
+        for i, t in enumerate(texts):
+            toks, tree = parse_text(t)
+            if tree is None:
+                continue
+            n = os.path.join(d, "f%d.emb" % i)
+            with open(n, "w", newline="") as f:
+                f.write(t)
+            with open(n) as f:
+                as_read = f.read()  # the program reads with universal newlines
+            toks2, tree2 = parse_text(as_read)
+            if tree2 is None:
+                continue
+            expected[n] = format_emb.format_emboss_parse_tree(tree2, format_emb.Config(indent_width=width))
+            names.append(n)
+        if len(names) < 2:
+            stats.discards += 1
+            return
+        case = {"texts": [open(n).read() for n in names], "width": width}
+        err = io.StringIO()
+        with contextlib.redirect_stderr(err), contextlib.redirect_stdout(io.StringIO()):
+            rc = format_main.main(["emboss-format", "--indent", str(width), "--color-output", "never"] + names)
+        stats.case([case["texts"], width, "cli"], len(names) >= 2, ["cli-multi-file", "files=%d" % len(names)], sample={"class": "cli-multi-file", "files": len(names), "width": width})
+        for n in names:
+            got = open(n).read()
+            if got != expected[n]:
+                whose = [os.path.basename(m) for m in names if expected[m] == got]
+                stats.fail({"kind": "cli-in-place-wrong-content", "holds": "another file's text" if whose else "something else"}, case, "after `emboss-format --indent %d %s`, %s does not hold the formatting of its own text%s (exit %r, stderr %r)" % (width, " ".join(os.path.basename(x) for x in names), os.path.basename(n), (" but that of " + ", ".join(whose)) if whose else "", rc, err.getvalue()[:300]))
+                return
+        with contextlib.redirect_stderr(io.StringIO()), contextlib.redirect_stdout(io.StringIO()):
+            format_main.main(["emboss-format", "--indent", str(width), "--color-output", "never"] + names)
+        for n in names:
+            if open(n).read() != expected[n]:
+                stats.fail({"kind": "cli-second-run-changes-file"}, case, "a second emboss-format run changed %s" % os.path.basename(n))
+                return
+        out = io.StringIO()
+        with contextlib.redirect_stdout(out), contextlib.redirect_stderr(io.StringIO()):
+            format_main.main(["emboss-format", "--no-edit-in-place", "--indent", str(width), "--color-output", "never", names[0]])
+        if out.getvalue() not in (expected[names[0]], expected[names[0]] + "\n"):
+            stats.fail({"kind": "cli-stdout-differs"}, case, "--no-edit-in-place printed something other than the formatted text")
+    finally:
+        shutil.rmtree(d, ignore_errors=True)
+
+
 def minimise(sig, case, detail):
+    if "text" not in case:
+        return None, None
     text, w = case["text"], case["width"]
 
     def fails_text(t):
@@ -235,6 +295,12 @@ def run(ctx):
 
 def replay(ctx, data):
     c = data["case"]
+    if "texts" in c:
+        st_ = vlib.Stats()
+        cli_batch(st_, random.Random(0), c["texts"], c["width"])
+        for f in st_.failures:
+            print("still failing:", f["sig"], f["detail"][:600])
+        return not st_.failures
     sigs, _ = check(c["text"], c["width"])
     for s, d in sigs:
         print("still failing:", s, d[:600])
